@@ -305,6 +305,14 @@ func genC18(t *rapid.T) c18Case {
 				l.Quote = `"`
 			}
 			l.Pieces = genPieces(t, l.Quote, names)
+			if kind == "assign" && l.Quote == "" && !strings.HasSuffix(l.Sep, " ") && !strings.HasSuffix(l.Sep, "\t") && rapid.IntRange(0, 5).Draw(t, "hashfirst") == 0 {
+				// an unquoted value may begin with `#` (a colour, a channel name): a comment needs a blank before it
+				l.Pieces = append([]envPiece{{K: "lit", T: rapid.SampledFrom([]string{"#ff0000", "#", "#1", "#a"}).Draw(t, "hashlit")}}, l.Pieces...)
+				if len(l.Pieces) > 1 && l.Pieces[1].K == "lit" {
+					l.Pieces[0].T += l.Pieces[1].T
+					l.Pieces = append(l.Pieces[:1], l.Pieces[2:]...)
+				}
+			}
 			if kind == "badkey" {
 				l.Key = rapid.SampledFrom([]string{"K Y", "K$", `K"x`, "K{", "a b c", "K'", "K!", "K*"}).Draw(t, "badkey")
 				neg = true
